@@ -92,7 +92,9 @@ TGcmInit ==
   /\ IsEv("GcmInit")
   /\ LET e == Tr[l]
          s == [fam |-> e.fam, bits |-> e.bits, key |-> Key(e), iv |-> PatBytes(e.iv[1], e.iv[2], 12),
-               aad |-> PatBytes(e.aad[1], e.aad[2], e.aad[3]), pos |-> 0, ct |-> << >>, ok |-> e.obs.fault = 0]
+               aad |-> PatBytes(e.aad[1], e.aad[2], e.aad[3]), pos |-> 0, ct |-> << >>, ok |-> e.obs.fault = 0,
+               \* the precomputed key data (shifted hash-key powers, round keys) stays secret for the whole session
+               kd |-> IF "kd" \in DOMAIN e THEN Chunks16(e.kd) ELSE {}]
      IN /\ gst' = [x \in (DOMAIN gst) \cup {e.sid} |-> IF x = e.sid THEN s ELSE gst[x]]
         /\ Step(   Chk(e.obs.fault # 0 \/ e.cx = << 0, 0, e.aad[3] >>, "DRIFT", "gcm-context-fields-after-init", l, << e.fam, e.cx >>)
                 \o Chk(e.rc = 0 /\ e.prc = 0, "C16", "gcm-init-rc", l, << e.fam, e.rc, e.prc >>)
@@ -113,7 +115,7 @@ TGcmUpdate ==
                      \o Chk(e.cx[1] = s.pos + Len(d) /\ e.cx[2] % 16 = (s.pos + Len(d)) % 16 /\ e.cx[3] = Len(s.aad), "DRIFT",
                             "gcm-context-fields", l, info \o << e.cx >>)
                      \o Chk(e.rc = 0, "C16", "gcm-update-rc", l, info \o << e.rc >>)
-                     \o LeakChecks(e, s.fam, KeySecrets(s.key) \cup {<< "hash-key", HashKey(s.key) >>}, "gcm-key-material-left")
+                     \o LeakChecks(e, s.fam, KeySecrets(s.key) \cup {<< "hash-key", HashKey(s.key) >>} \cup s.kd, "gcm-key-material-left")
                      \o MachineChecks(e, s.fam))
 
 TGcmFinal ==
@@ -124,7 +126,7 @@ TGcmFinal ==
      IN Step(IF ~s.ok \/ e.obs.fault # 0 THEN MachineChecks(e, s.fam)
              ELSE    Chk(e.tag = ToHex(exp), "C07", "gcm-final-tag", l, info \o << e.tag, ToHex(exp) >>)
                   \o Chk(e.rc = 0, "C16", "gcm-final-rc", l, info \o << e.rc >>)
-                  \o LeakChecks(e, s.fam, KeySecrets(s.key) \cup {<< "hash-key", HashKey(s.key) >>}, "gcm-key-material-left")
+                  \o LeakChecks(e, s.fam, KeySecrets(s.key) \cup {<< "hash-key", HashKey(s.key) >>} \cup s.kd, "gcm-key-material-left")
                   \o MachineChecks(e, s.fam))
 
 \* ---- key expansion (C04)
